@@ -160,6 +160,11 @@ def main():
                 for row in pat:
                     if rng.random() < 0.35: row[0] = dict(row[0] or {}, fx=('raw', (20, rng.choice((0x01, 0x02, 0x05, 0x11, 0x12, 0x15, 0x00)))))
             gp = os.path.join(gdir, "slide%02d.it" % gi); open(gp, "wb").write(modgen.WRITERS["it"](song)); mods.insert(2, gp)
+        # short modules that loop every few frames: whatever is set again while playing must not touch the loop counter either
+        for gi in range(2 if tier == "quick" else 10):
+            pat = modgen.empty_pattern(rng.choice((4, 8, 16)), 2); pat[0][0] = dict(note=25, ins=1)
+            song = dict(chn=2, orders=[0], patterns=[pat], speed=rng.choice((2, 3)), bpm=125, restart=0, name="short loop")
+            gp = os.path.join(gdir, "loop%02d.it" % gi); open(gp, "wb").write(modgen.WRITERS["it"](song)); mods.insert(1, gp)
         nframes = 240 if tier == "quick" else 1200
         base = (44100, 0, 1, 1, 100, 100)
         configs = [base, (4000, 7, 0, 3, -100, 37), (8000, 1, 2, 0, 0, 0), (11025, 2, 1, 2, 70, 200), (22050, 3, 0, 1, -40, 100),
@@ -224,6 +229,21 @@ def main():
                                   "broken": "monitor: timeline differs between output configurations"},
                                  key="timeline:%s" % m)
                     break
+            # the output parameters set again WHILE playing (other interpolation, amplification, mix, volume, DSP switch): the timeline of
+            # the frames before and after the call must still be the reference one
+            if ref is not None and tfac is None:
+                for sw in ((rng.choice((90, 100, 101, 150)), rng.choice((0, 2)), rng.randrange(0, 4), rng.choice((-100, 0, 50)), rng.choice((0, 60, 200)), rng.choice((0, 1))),
+                           (rng.choice((1, 33, 120)), 1, 1, 100, 100, 0)):
+                    r = V.run([drv, "timeline", path, str(nframes)] + [str(x) for x in base] + ["T", "-", ":".join(str(x) for x in sw)], env=env, timeout=300)
+                    tl = [tuple(ln.split()[:11]) if len(ln.split()) >= 15 else tuple(ln.split()) for ln in r.stdout.strip().split("\n")]
+                    ck.count()
+                    if r.returncode not in (0, 3) or tl != ref:
+                        k = next((i for i in range(min(len(tl), len(ref))) if tl[i] != ref[i]), min(len(tl), len(ref)))
+                        ck.violation({"engine": "timeline", "module": m, "config_a": list(base), "switch(frame,interp,amp,mix,vol,dsp)": list(sw), "first_differing_frame": k,
+                                      "a": ref[k] if k < len(ref) else None, "b": tl[k] if k < len(tl) else None,
+                                      "fields": "pos pattern row num_rows frame speed bpm time loop_count total_time sequence",
+                                      "broken": "monitor: setting the output parameters again while playing changes the timeline"}, key="timeline-switch:%s" % m)
+                        break
             # PCM encoding relations on the real render: same rate/mono-ness/interp/amp/mix/vol, vary 8-bit and unsigned flags
             for monoflag in ((0, 4) if tfac is None else ()):
                 outs = {}
